@@ -94,6 +94,7 @@ pub fn spec() -> PropSpec {
                 (gen::msg_seq(cfg), gen::partition()).prop_map(|(seq, partition)| Case { seq, partition }).boxed()
             }, 150_000, 3_000_000, eval),
             EnumCheck::new("large", false, large_cases, eval),
+            crate::targets::corpus_check(&["chunk_roundtrip"]),
         ],
     }
 }
